@@ -116,9 +116,9 @@ def lean_obligations(prop, tier):
     return leancheck.run(prop, tier, V, REPO, CACHE, GOENV, sh, Lock, log)
 
 
-def model_correspondence(prop, tier, seed, binary):
+def model_correspondence(prop, tier, seed, binary, levels=(0,)):
     from checklib import corr
-    return corr.run(prop, tier, seed, binary, V, CACHE, GOENV, sh, Lock, log)
+    return corr.run(prop, tier, seed, binary, V, CACHE, GOENV, sh, Lock, log, levels=levels)
 
 
 # ----------------------------------------------------------------------------- known findings
@@ -200,7 +200,7 @@ def main():
     # 3. correspondence model <-> implementation
     corr_ob = []
     if binary is not None:
-        corr_ob = model_correspondence(prop, tier, seed, binary)
+        corr_ob = model_correspondence(prop, tier, seed, binary, levels_for(tier, cap, prop))
         obligations += corr_ob
         broken += [o for o in corr_ob if not o["ok"]]
 
